@@ -487,7 +487,9 @@ func (fr *Frame) callByContract(ct *Contract, callee *ssa.Function, sig *types.S
 			u.assumed[fmt.Sprintf("panic-guard precondition of %s (%s) is checked under %s only; here a normal return implies it", shortKey(key), rq.Text, strings.Join(rq.Props, ","))] = true
 			continue
 		}
+		u.curReveal = rq.Reveal
 		o := u.oblig("pre@call", fmt.Sprintf("precondition of %s: %s", shortKey(key), rq.Text), implies(reach, g), rq.Props)
+		u.curReveal = nil
 		o.Detail = key
 	}
 	// type invariant of the receiver: same-package callers establish it before the call
